@@ -141,6 +141,11 @@ class ImmutableDict(Mapping[Any, Any]):
 
         return self._hash
 
+    def __reduce__(self) -> Any:
+        """Pickle the content only: the hash is recomputed on load (string hashes differ between processes)."""
+
+        return self.__class__, (self._d,)
+
     def __repr__(self) -> str:  # pragma: no cover
         """Representation."""
 
